@@ -5,7 +5,10 @@ Theorems about
 * `KawinV.Gen.C15`  — definitions REGENERATED from kawin/precipitation/parameters/ShapeFactors.py
   on every run (inner formulas and `…Min` constants of the four shape descriptions),
 * `KawinV.Shape`    — hand model of the public wrappers (`_processAspectRatio`, `…Factor`),
-* `KawinV.Bisect`   — hand model of `ShapeFactor._findRcrit` / `_findRcritScalar`.
+* `KawinV.Bisect`   — hand model of `ShapeFactor._findRcrit` / `_findRcritScalar`,
+* `KawinV.SFState`  — setter state machine of `ShapeFactor`, the public `findRcrit`, and the radius
+  interface over call histories (`runR`; argument objects carry an explicit identity) together
+  with the identity-memo variant (`memoRun`).
 
 Generic part: α is any linearly ordered field with the transcendental atoms `Trans α`; laws of
 the atoms that a statement needs (cbrt(x)³ = x, x^(2/3) cubed = x², arccos = π/2 − arcsin,
